@@ -12,10 +12,10 @@ import (
 )
 
 type vfDraw struct {
-	K string  `json:"k"`
-	V int64   `json:"v"`
-	U uint64  `json:"u"`
-	B []int   `json:"b"`
+	K string `json:"k"`
+	V int64  `json:"v"`
+	U uint64 `json:"u"`
+	B []int  `json:"b"`
 }
 
 type vfState struct {
@@ -83,17 +83,24 @@ func vfBytes(n int) []byte {
 	}
 	return b
 }
-func vfString(n int) string       { return string(vfBytes(n)) }
-func vfU32() uint32               { return uint32(vfNext("u32").U) }
-func vfU64() uint64               { return vfNext("u64").U }
-func vfInt(lo, hi int) int        { return int(vfNext("int").V) }
-func vfLen(max int) int           { return int(vfNext("len").V) }
-func vfChoice(n int) int          { return int(vfNext("choice").V) }
-func vfBool() bool                { return vfNext("bool").V != 0 }
-func vfConc(x int) int            { return x }
-func vfSymbolic() bool            { return false }
+func vfString(n int) string          { return string(vfBytes(n)) }
+func vfU32() uint32                  { return uint32(vfNext("u32").U) }
+func vfU64() uint64                  { return vfNext("u64").U }
+func vfInt(lo, hi int) int           { return int(vfNext("int").V) }
+func vfLen(max int) int              { return int(vfNext("len").V) }
+func vfChoice(n int) int             { return int(vfNext("choice").V) }
+func vfBool() bool                   { return vfNext("bool").V != 0 }
+func vfConc(x int) int               { return x }
+func vfSymbolic() bool               { return false }
 func vfKnown(id string, c bool) bool { return c }
-func vfCover(label string)        { vfS.covers = append(vfS.covers, label) }
+func vfCover(label string) {
+	for _, c := range vfS.covers {
+		if c == label {
+			return
+		}
+	}
+	vfS.covers = append(vfS.covers, label)
+}
 func vfAssume(c bool) {
 	if !c {
 		panic(vfAssumeFailed{})
